@@ -114,6 +114,7 @@ def scenarios_for(seed, nrandom):
     # several connections answered at the same time through a slow transport: a reply must not change between the moment it
     # is built and the moment the transport has taken it (serialization buffers shared between connections)
     out += [cmdlib.concurrent_slow(v) for v in range(8)]
+    out += [cmdlib.concurrent_big(v) for v in range(4)]
     rng = random.Random(seed)
     for _ in range(nrandom):                       # random payloads over all byte values
         n = rng.choice([0, 1, 2, 3, 8, 40])
